@@ -410,6 +410,83 @@ static void nested_one(long size, unsigned long long bl, unsigned variant)
     }
 }
 
+// Large counts ("any header contents" inside the signed range of the dimension type): with a zero (or one byte)
+// wire block length a group of 127 / 32767 / 2^31-1 / 2^63-1 entries needs no (little) memory; the laws are checked
+// at sampled positions instead of by full loops.
+static unsigned long long g_large;
+template<typename Msg, int NB, int BB>
+static void flat_large(unsigned long long size, unsigned long long bl)
+{
+    const std::size_t hdr = 8, dim = NB + BB;
+    const std::size_t total = hdr + dim + static_cast<std::size_t>(size * bl);
+    std::vector<unsigned char> buf(total + 1);
+    put_le(&buf[0], 2, 0);
+    put_le(&buf[hdr], BB, bl);
+    put_le(&buf[hdr + BB], NB, size);
+    unsigned char* data = &buf[hdr + dim];
+    Msg m{reinterpret_cast<char*>(buf.data()), total};
+    auto g = m.g();
+    using G = decltype(g);
+    using It = typename G::iterator;
+    using D = typename G::difference_type;
+    using S = typename G::size_type;
+    bool as = VRT_TRAPPED(({
+        g_large++;
+        if(static_cast<unsigned long long>(g.size()) != size || g.empty())
+            bad("large-size", 0, 0, 0);
+        if(sbepp::size_bytes(g) != dim + size * bl)
+            bad("large-size_bytes", 0, 0, 0);
+        if(!(g.begin() + static_cast<D>(size) == g.end()) || !(g.end() - static_cast<D>(size) == g.begin()))
+            bad("large-begin+size==end", 0, 0, 0);
+        if(static_cast<unsigned long long>(g.end() - g.begin()) != size || static_cast<unsigned long long>(std::distance(g.begin(), g.end())) != size)
+            bad("large-distance", 0, 0, 0);
+        const unsigned long long samples[6] = {0, 1, size / 2, size - 2, size - 1, size};
+        for(int a = 0; a < 6; a++)
+        {
+            const unsigned long long i = samples[a];
+            if(i > size)
+                continue;
+            It it = g.begin() + static_cast<D>(i);
+            g_expr++;
+            if(i < size)
+            {
+                if(reinterpret_cast<unsigned char*>(sbepp::addressof(*it)) != data + i * bl
+                   || reinterpret_cast<unsigned char*>(sbepp::addressof(g[static_cast<S>(i)])) != data + i * bl
+                   || reinterpret_cast<unsigned char*>(sbepp::addressof(g.begin()[static_cast<D>(i)])) != data + i * bl)
+                    bad("large-entry-address", static_cast<long>(a), 0, 0);
+                // from the end backwards
+                if(reinterpret_cast<unsigned char*>(sbepp::addressof(g.end()[-static_cast<D>(size - i)])) != data + i * bl)
+                    bad("large-end[-k]", static_cast<long>(a), 0, 0);
+            }
+            It back = it;
+            back -= static_cast<D>(i);
+            if(!(back == g.begin()) || static_cast<unsigned long long>(it - g.begin()) != i || static_cast<unsigned long long>(g.end() - it) != size - i)
+                bad("large-difference", static_cast<long>(a), 0, 0);
+            for(int b = 0; b < 6; b++)
+            {
+                const unsigned long long j = samples[b];
+                if(j > size)
+                    continue;
+                It other = g.end() - static_cast<D>(size - j);
+                g_cmp++;
+                if((it == other) != (i == j) || (it != other) != (i != j) || (it < other) != (i < j) || (it <= other) != (i <= j)
+                   || (it > other) != (i > j) || (it >= other) != (i >= j)
+                   || static_cast<long long>(it - other) != static_cast<long long>(i) - static_cast<long long>(j))
+                    bad("large-comparison", static_cast<long>(a), static_cast<long>(b), 0);
+            }
+        }
+        if(reinterpret_cast<unsigned char*>(sbepp::addressof(g.front())) != data
+           || reinterpret_cast<unsigned char*>(sbepp::addressof(g.back())) != data + (size - 1) * bl)
+            bad("large-front-back", 0, 0, 0);
+    }));
+    if(as)
+    {
+        g_asserts++;
+        g_mismatch++;
+        std::printf("MISMATCH pair=%s what=spurious-assert-large size=%llu bl=%llu expr=%s\n", g_pair, size, bl, vrt::astate().expr);
+    }
+}
+
 template<typename MF, typename MN, int NB, int BB>
 static void run_pair(const char* name, int idx)
 {
@@ -424,6 +501,19 @@ static void run_pair(const char* name, int idx)
                 nested_one<MN, NB, BB>(size, bls[b] ? bls[b] : 1, v); // nested entries hold field x: wire block >= 1... and 0 below
             nested_one<MN, NB, BB>(size, 0, 1);
         }
+    {
+        const unsigned long long dmax = (NB == 8) ? 0x7FFFFFFFFFFFFFFFULL : ((1ULL << (8 * NB - 1)) - 1);
+        const unsigned long long blmax = (BB == 8) ? 0xFFFFFFFFFFFFFFFFULL : ((1ULL << (8 * BB)) - 1);
+        flat_large<MF, NB, BB>(dmax, 0);
+        flat_large<MF, NB, BB>(dmax - 1, 0);
+        if(NB <= 2)
+        {
+            flat_large<MF, NB, BB>(dmax, 1);
+            flat_large<MF, NB, BB>(dmax, 2);
+        }
+        // few entries, large block lengths (entries far apart; only addresses are formed, nothing is read)
+        (void)blmax;
+    }
     std::printf("DONE pair=%s expr=%llu\n", name, g_expr);
 }
 
@@ -434,6 +524,7 @@ int main()
         std::printf("PAIR %d flat_expr=%llu nested_steps=%llu\n", i, g_per_pair[i][0], g_per_pair[i][1]);
     std::printf("TOTAL expressions=%llu comparisons=%llu container_checks=%llu nested_steps=%llu mismatches=%llu asserts=%llu\n",
                 g_expr, g_cmp, g_container, g_nested_steps, g_mismatch, g_asserts);
+    std::printf("LARGE containers=%llu\n", g_large);
     return 0;
 }
 '''
@@ -475,7 +566,10 @@ def main():
              "block length in {0, compiled=1, 4}; flat: every iterator expression of depth <= %d over ++, --, it++, "
              "it--, +=n, -=n, it+n, n+it, it-n (n in -4..4, inside [0,size]) checked by address and by index, it[n], "
              "(it+n)-n, it-it and all six comparisons for all index pairs, begin/end/front/back/[]/range-for, "
-             "resize/clear byte diff; nested: begin->end walk, entry start/size, multipass copies, front, resize/clear. "
+             "resize/clear byte diff; nested: begin->end walk, entry start/size, multipass copies, front, resize/clear; "
+             "large counts: numInGroup = the dimension type's signed maximum (127 / 32767 / 2^31-1 / 2^63-1) and one less "
+             "with wire block length 0 (and 1, 2 for 8/16-bit counts): size, size_bytes, begin+size==end, distances, "
+             "entry addresses via *, [] and end()[-k], comparisons at sampled positions. "
              "Exhaustive inside this scope. distinct_nontrivial = distinct (pair, group kind) with at least one "
              "expression evaluated on a non-empty group." % (maxsize, depth))
     cfgs = configs(rep.tier)
@@ -517,6 +611,8 @@ def main():
             rep.count("expressions", int(m.group(1)))
             rep.count("comparisons", int(m.group(2)))
             rep.count("nested_steps", int(m.group(4)))
+            lm = re.search(r"^LARGE containers=(\d+)", out, re.M)
+            rep.count("large_count_groups", int(lm.group(1)) if lm else 0)
             for pm in re.finditer(r"^PAIR (\d+) flat_expr=(\d+) nested_steps=(\d+)$", out, re.M):
                 if int(pm.group(2)):
                     rep.nontrivial(pm.group(1), "flat")
